@@ -30,6 +30,7 @@ type Env struct {
 	result  []TV
 	pures   map[string]*PureDef
 	capture *[]Term
+	snaps   map[string]map[string]Term
 	callee  *ssa.Function
 }
 
@@ -350,10 +351,9 @@ func (e *Env) selIdx(tv TV, i int) TV {
 
 func (e *Env) index(tv TV, idx Expr) TV {
 	if kt, vt, ok := mapKV(tv.T); ok {
-		_ = kt
 		m := e.toTerm(tv)
 		k := e.intTerm(idx)
-		v := Sel(e.st.mapVal(m, vt), k)
+		v := Sel(e.st.mapVal(m, kt, vt), k)
 		return TV{v, vt}
 	}
 	if st, ok := under(tv.T).(*types.Slice); ok {
@@ -490,6 +490,13 @@ func (e *Env) call(c *ECall) TV {
 			sub.old = h
 			return sub.eval(c.Args[0])
 		})
+	case "at":
+		label := exprKey(c.Args[0])
+		h, ok := e.snaps[label]
+		if !ok {
+			sfail("unknown snapshot %q", label)
+		}
+		return e.withHeap(h, func() TV { return e.eval(c.Args[1]) })
 	case "ite":
 		cond := e.boolTerm(c.Args[0])
 		a, b := e.eval(c.Args[1]), e.eval(c.Args[2])
@@ -500,8 +507,8 @@ func (e *Env) call(c *ECall) TV {
 		return TV{Ite(cond, e.toTerm(a), e.toTerm(b)), t}
 	case "len":
 		tv := e.eval(c.Args[0])
-		if _, _, ok := mapKV(tv.T); ok {
-			return TV{UF(SI, "card", st.mapHas(e.toTerm(tv))), nil}
+		if kt, vt, ok := mapKV(tv.T); ok {
+			return TV{UF(SI, "card", st.mapHas(e.toTerm(tv), kt, vt)), nil}
 		}
 		if tv.T != nil && isString(tv.T) {
 			return TV{UF(SI, "str.len", e.toTerm(tv)), nil}
@@ -509,7 +516,11 @@ func (e *Env) call(c *ECall) TV {
 		return TV{slLen(e.toTerm(tv)), nil}
 	case "has":
 		m := e.eval(c.Args[0])
-		return TV{Sel(st.mapHas(e.toTerm(m)), e.intTerm(c.Args[1])), boolT}
+		kt, vt, ok := mapKV(m.T)
+		if !ok {
+			sfail("has() on non-map %v", m.T)
+		}
+		return TV{Sel(st.mapHas(e.toTerm(m), kt, vt), e.intTerm(c.Args[1])), boolT}
 	case "get":
 		return e.index(e.eval(c.Args[0]), c.Args[1])
 	case "unchanged":
@@ -523,12 +534,12 @@ func (e *Env) call(c *ECall) TV {
 	case "samecontent":
 		// samecontent(m1, m2): current contents equal
 		a, b := e.eval(c.Args[0]), e.eval(c.Args[1])
-		_, vt, ok := mapKV(a.T)
+		kt, vt, ok := mapKV(a.T)
 		if !ok {
 			sfail("samecontent on non-map")
 		}
 		ma, mb := e.toTerm(a), e.toTerm(b)
-		return TV{And(Eq(st.mapHas(ma), st.mapHas(mb)), Eq(st.mapVal(ma, vt), st.mapVal(mb, vt))), boolT}
+		return TV{And(Eq(st.mapHas(ma, kt, vt), st.mapHas(mb, kt, vt)), Eq(st.mapVal(ma, kt, vt), st.mapVal(mb, kt, vt))), boolT}
 	case "calls":
 		key := exprKey(c.Args[0])
 		now := st.comp("N!"+key, SI)
@@ -730,16 +741,16 @@ func (e *Env) oldComp(name, sort string) Term {
 // mapRel: relation between old and current content of map m. With k,v: the
 // current content is the old one updated at k; without: unchanged.
 func (e *Env) mapRel(m TV, k, v *Term) Term {
-	_, vt, ok := mapKV(m.T)
+	kt, vt, ok := mapKV(m.T)
 	if !ok {
 		sfail("not a map: %v", m.T)
 	}
 	ref := e.toTerm(m)
-	s := sortOf(vt)
-	hNow := Sel(e.st.comp("MH", ArrSort(SI, ArrSort(SI, SB))), ref)
-	hOld := Sel(e.oldComp("MH", ArrSort(SI, ArrSort(SI, SB))), ref)
-	vNow := Sel(e.st.comp("MV!"+s, ArrSort(SI, ArrSort(SI, s))), ref)
-	vOld := Sel(e.oldComp("MV!"+s, ArrSort(SI, ArrSort(SI, s))), ref)
+	hn, vn, s := mapNames(kt, vt)
+	hNow := Sel(e.st.comp(hn, hasSort), ref)
+	hOld := Sel(e.oldComp(hn, hasSort), ref)
+	vNow := Sel(e.st.comp(vn, ArrSort(SI, ArrSort(SI, s))), ref)
+	vOld := Sel(e.oldComp(vn, ArrSort(SI, ArrSort(SI, s))), ref)
 	if k == nil {
 		return And(Eq(hNow, hOld), Eq(vNow, vOld))
 	}
